@@ -317,6 +317,37 @@ def r5_every_subpattern_expanded_once_in_place(ctx):
            witness="((fn [& {:keys [c]}] c) :c {:x 1}) must be {:x 1}")
 
 
+@rule("C09.R8", floor=4)
+def r8_syntax_quote_rebuilds_each_collection_kind_at_every_size(ctx):
+    """A syntax-quoted collection is rebuilt at run time by a constructor of its own kind applied to
+    the concatenated pieces: (apply vector ..), (apply hash-set ..), (apply hash-map ..) give the
+    empty collection for no pieces -- but (seq (concat)) is nil, so the list branch must answer the
+    empty list separately with a list constructor."""
+    pf = ctx.fn(RD, "_process_syntax_quoted_form")
+    want = {"vec.PersistentVector": "_VECTOR", "lset.PersistentSet": "_HASH_SET", "lmap.PersistentMap": "_HASH_MAP"}
+    seen = set()
+    for i in ast.walk(pf):
+        if not (isinstance(i, ast.If) and isinstance(i.test, ast.Call) and P.un(i.test.func) == "isinstance" and len(i.test.args) == 2):
+            continue
+        kind = P.un(i.test.args[1])
+        rets = [r for s in i.body for r in ast.walk(s) if isinstance(r, ast.Return) and r.value is not None]
+        if kind in want:
+            seen.add(kind)
+            ok = bool(rets) and all(f"_APPLY, {want[kind]}" in P.un(r.value) for r in rets)
+            ctx.ob("C09.R8", f"{RD}::_process_syntax_quoted_form::{kind} rebuilt with (apply {want[kind][1:].lower().replace('_', '-')} ...)", RD, i.lineno, ok,
+                   "" if ok else f"a syntax-quoted {kind} is not rebuilt by its own constructor: the enclosing collection type is lost")
+        elif kind == "llist.PersistentList":
+            seen.add(kind)
+            seq_rets = [r for r in rets if "_SEQ" in P.un(r.value)]
+            empties = [x for x in ast.walk(i) if isinstance(x, ast.If) and x is not i and P.un(x.test) in ("len(form) == 0", "not form", "form.is_empty", "count(form) == 0")]
+            ok = (not seq_rets) or any(any(isinstance(r, ast.Return) and r.value is not None and "_SEQ" not in P.un(r.value) and "_LIST" in P.un(r.value) for s in e.body for r in ast.walk(s)) for e in empties)
+            ctx.ob("C09.R8", f"{RD}::_process_syntax_quoted_form::the empty list is rebuilt as a list", RD, i.lineno, ok,
+                   "" if ok else "every list, the empty one included, becomes (seq (concat ...)): for no pieces that is nil, so `() is nil, (list? `()) is false and `'() is (quote nil)",
+                   witness="(list? `()) => false")
+    if len(seen) < 4:
+        raise AnalysisError(f"_process_syntax_quoted_form: only the collection branches {sorted(seen)} were found")
+
+
 def _unthread(form):
     """(->> a (f x) (g y)) as nested calls (g y (f x a)); other forms as they are.  Returns a list
     [head-text, [argument forms...]] for the outermost call, or None."""
@@ -407,6 +438,8 @@ def r7_destructured_names_are_bound_in_source_order(ctx):
 
 
 SELFTEST = [
+    {"name": "syntax-quoted empty list becomes (seq (concat)) (the repaired defect)", "file": RD, "expect": "C09.R8",
+     "old": "        if len(form) == 0:\n            # `(seq (concat))` would be nil, but the empty list is a list\n            return llist.l(_LIST)\n", "new": ""},
     {"name": "fn destructures the rest parameter first (the repaired defect)", "file": CORE, "expect": "C09.R7",
      "old": "        bindings (concat\n                  (->> defs\n                       (filter #(not= :symbol (:type %)))\n                       (mapcat destructure-binding))\n                  rest-binding)\n",
      "new": "        bindings (->> defs\n                      (filter #(not= :symbol (:type %)))\n                      (mapcat destructure-binding)\n                      (concat rest-binding))\n"},
